@@ -1,0 +1,15 @@
+//go:build verif
+
+package open_game_manager
+
+// Verification hooks (build tag `verif`, add-only): the gate keeps its participants in a plain map that its own
+// callbacks write; an outside reader iterating that map can crash the process.  The ready group underneath has a
+// locked accessor: expose it.
+
+// VerifGroupStates: participant index -> has signalled, read under the ready group's lock.
+func VerifGroupStates(o OpenGameManager) map[int64]bool {
+	if m, ok := o.(*openGameManager); ok && m.rg != nil {
+		return m.rg.GetParticipantStates()
+	}
+	return nil
+}
